@@ -234,6 +234,8 @@ class Evaluator:
             return bool(e["v"])
         if e["t"] in ("str", "char"):
             return e["v"]
+        if e["t"] == "float":
+            return float(str(e["v"]).replace("_", "").rstrip("f3264"))
         raise Unknown("literal type %s" % e["t"])
 
     def e_path(self, e, env):
@@ -313,6 +315,8 @@ class Evaluator:
                 eq = (l == r)
             return eq if op == "==" else not eq
         if op in ("<", "<=", ">", ">="):
+            if isinstance(l, float) and isinstance(r, float):
+                return {"<": l < r, "<=": l <= r, ">": l > r, ">=": l >= r}[op]
             if not (isinstance(l, int) and isinstance(r, int)) or isinstance(l, bool) or isinstance(r, bool):
                 raise Unknown("ordering on non-int")
             return {"<": l < r, "<=": l <= r, ">": l > r, ">=": l >= r}[op]
@@ -405,9 +409,11 @@ class Evaluator:
 
     def e_cast(self, e, env):
         v = self.eval(e["e"], env)
+        ty_ = e["ty"]["s"].replace(" ", "")
+        if ty_ in ("f64", "f32") and isinstance(v, (int, float)) and not isinstance(v, bool):
+            return float(v)
         if isinstance(v, bool) or not isinstance(v, int):
             raise Unknown("cast of non-int")
-        ty_ = e["ty"]["s"].replace(" ", "")
         if ty_ in ("usize", "u32", "u64", "u16", "u8"):
             if v < 0:
                 raise Panic("negative-to-unsigned-cast", e.get("l"))  # wraps around: always a logic error here
@@ -442,6 +448,12 @@ class Evaluator:
                 return len(recv) == 0
             if m == "len":
                 return len(recv)
+            if m in ("take", "skip") and len(e["args"]) == 1:
+                n_ = self.eval(e["args"][0], env)
+                if isinstance(n_, int) and not isinstance(n_, bool):
+                    return recv[:n_] if m == "take" else recv[n_:]
+            if m == "rev" and not e["args"]:
+                return list(reversed(recv))
         if m in ("clone", "copied", "as_ref", "to_owned", "deref"):
             return recv
         if isinstance(recv, str) and not e["args"]:
